@@ -183,6 +183,26 @@ def _classify_exit(callee, P):
     return go(P, 0)
 
 
+def _split_targs(fa):
+    """'[meta::ContentProbe, u8]' -> ['meta::ContentProbe', 'u8'] (top-level commas); [] when absent / still generic"""
+    if not fa or not fa.startswith('['):
+        return []
+    inner, depth, cur, out = fa[1:-1], 0, '', []
+    for ch in inner:
+        if ch in '<([':
+            depth += 1
+        elif ch in '>)]':
+            depth -= 1
+        if ch == ',' and depth == 0:
+            out.append(cur.strip())
+            cur = ''
+        else:
+            cur += ch
+    if cur.strip():
+        out.append(cur.strip())
+    return out
+
+
 def splice(caller, bb, callee):
     """inline `callee` at the call in block `bb` of `caller` (both facts.Body); mutates caller.locals / caller.blocks"""
     call = caller.blocks[bb]['term']
@@ -191,6 +211,7 @@ def splice(caller, bb, callee):
     target = call.get('target')
     line = call.get('line')
     shape = _try_shape(caller, call)
+    site_targs = _split_targs((call.get('func') or {}).get('fn_args'))
     # locals
     for l in callee.locals:
         caller.locals.append(dict(l))
@@ -211,6 +232,11 @@ def splice(caller, bb, callee):
                 nb['term'] = {'k': 'goto', 'target': target, 'line': t.get('line'), 'col': t.get('col'), 'exp': False}
         else:
             nb['term'] = _shift_term(t, loff, boff, None)
+            if site_targs and nb['term'].get('k') == 'call' and '/#' in str((nb['term'].get('func') or {}).get('fn_args', '')):
+                # the generic parameters of the helper are known at this call site: `<P as Probe>::probe` with P := ContentProbe
+                fa = nb['term']['func']['fn_args']
+                fa = re.sub(r'[A-Za-z_][A-Za-z0-9_]*/#(\d+)', lambda m: site_targs[int(m.group(1))] if int(m.group(1)) < len(site_targs) else m.group(0), fa)
+                nb['term'] = dict(nb['term'], func=dict(nb['term']['func'], fn_args=fa))
         caller.blocks.append(nb)
     # `helper(..)?`: an exit of the helper that produces an error goes to the caller's error arm, not back through the
     # caller's test of the result (the merged return block would otherwise let "helper failed" reach "caller continues")
@@ -1461,7 +1487,7 @@ def devirtualize(F):
     for p, b in F.bodies.items():
         for bi, blk in enumerate(b.blocks):
             t = blk['term']
-            if not t or t['k'] != 'call' or not t.get('args') or t.get('devirt'):
+            if not t or t['k'] != 'call' or t.get('devirt'):
                 continue
             f = t.get('func', {})
             c = norm(f.get('fn')) if f.get('fn') else None
@@ -1471,7 +1497,7 @@ def devirtualize(F):
             if tr not in traits or (tr, meth) not in impls:
                 continue
             # the concrete type behind the receiver: follow plain moves / borrows back to a local of a crate type
-            cur, hops, ty = t['args'][0], 0, None
+            cur, hops, ty = (t['args'][0] if t.get('args') else {'k': 'const'}), 0, None
             while hops < 12 and cur['k'] != 'const' and not [e for e in cur['p']['proj'] if e != 'deref']:
                 hops += 1
                 lty = re.sub(r"<.*$", '', b.locals[cur['p']['l']]['ty'].replace('&', '').replace('mut ', '').strip())
@@ -1488,6 +1514,14 @@ def devirtualize(F):
                     cur = {'k': 'copy', 'p': rv['p']}
                 else:
                     break
+            if ty is None:
+                # an associated function without a receiver (`P::probe(path)`): the Self type is the first generic argument,
+                # known once the generic helper was spliced at a call site that names it
+                ta = _split_targs(f.get('fn_args'))
+                if ta and '/#' not in ta[0]:
+                    t0 = re.sub(r"<.*$", '', ta[0].replace('&', '').strip())
+                    if any(t0 == st for st, _ in impls[(tr, meth)]):
+                        ty = t0
             if ty is None:
                 continue
             cands = [bp for st, bp in impls[(tr, meth)] if st == ty]
